@@ -21,6 +21,8 @@ def tpOK (clk : Nat) (tp : Tp) : Prop :=
   | .added => tp.early = false ∧ tp.addAt ≠ 0 ∧ tp.cbs = 0 ∧ tp.cbAt = 0 ∧ tp.decAt = 0
   | .inCb => tp.early = false ∧ tp.addAt ≠ 0 ∧ tp.cbs = 1 ∧ tp.addAt < tp.cbAt ∧ tp.lastEnd < tp.cbAt ∧ tp.decAt = 0 ∧
              tp.ended = tp.total ∧ tp.started = tp.total
+  | .inCbN => tp.early = false ∧ tp.addAt ≠ 0 ∧ tp.cbs = 1 ∧ tp.addAt < tp.cbAt ∧ tp.lastEnd < tp.cbAt ∧ tp.decAt = 0 ∧
+             tp.ended = tp.total ∧ tp.started = tp.total
   | .done => tp.cbs = 1 ∧ tp.cbAt ≠ 0 ∧ tp.cbAt < tp.decAt ∧ tp.lastEnd < tp.cbAt ∧ tp.ended = tp.total ∧ tp.started = tp.total ∧
              (tp.early = false → tp.addAt ≠ 0 ∧ tp.addAt < tp.cbAt) ∧
              (tp.early = true → tp.addAt = 0 ∨ tp.decAt < tp.addAt)
@@ -45,7 +47,7 @@ theorem sinv_init (k : Nat) (tps : List Tp) (hf : ∀ tp ∈ tps, tp.fresh) : SI
   unfold tpOK
   rw [h1]
   simp only [h2, h3, h4, h5, h6, h7, h8, h9]
-  refine ⟨by omega, by omega, by omega, by omega, by omega, by omega, fun e => (h11 e).1, ?_⟩
+  refine ⟨by omega, by omega, by omega, by omega, by omega, by omega, fun e => (h11.1 e).1, ?_⟩
   simp
 
 /-- a step that does not touch taskpools and records no return -/
